@@ -65,6 +65,8 @@ pub struct L1State {
     pub readers: BTreeMap<u64, Reader>,
     pub thorough: bool,
     pub sched_traces: Vec<String>,
+    /// dishonest tree (C07, last clause): (label, version) pairs whose predecessor was NOT retired in the epoch of this version
+    pub unretired: Vec<(Vec<u8>, u64)>,
     pub restart_permille: u64,
     /// C14: serve read operations through `ReadOnlyDirectory`
     pub readonly: bool,
@@ -90,6 +92,7 @@ impl Default for L1State {
             readers: BTreeMap::new(),
             thorough: false,
             sched_traces: vec![],
+            unretired: vec![],
             restart_permille: 0,
             readonly: false,
             rng: crate::rng::Rng::new(7),
@@ -1114,6 +1117,7 @@ fn step_inner(ex: &mut Exec, st: &mut L1State, op: &str, toks: &[&str]) -> Optio
         "reset" if toks.len() == 2 => {
             st.fx = None;
             st.readers.clear();
+            st.unretired.clear();
             let mut inst = st.rt.block_on(Inst::new(toks[1], &st.cache_mode, st.parallelism))?;
             inst.readonly = st.readonly;
             st.inst = Some(inst);
@@ -1325,6 +1329,88 @@ fn step_inner(ex: &mut Exec, st: &mut L1State, op: &str, toks: &[&str]) -> Optio
                     Some("err".into())
                 }
             }
+        }
+        // oracle-only (C07, last clause): a DISHONEST server publishes a new version of a label WITHOUT retiring the previous one
+        // (`o.mal.publish <label> <value>`: only the fresh leaf of version v+1 is inserted), or retires an old version late
+        // (`o.mal.retire <label> <version>`: only the stale leaf, in a later epoch).  Everything else is as `publish` does it.
+        "o.mal.publish" | "o.mal.retire" if toks.len() == 3 => {
+            use akd::storage::types::{ValueState, ValueStateRetrievalFlag};
+            let inst = st.inst.as_mut()?;
+            let u = AkdLabel(parse_hex(toks[1])?);
+            let cfg = inst.cfg.clone();
+            let mut azks = st.rt.block_on(inst.azks())?;
+            let next_epoch = azks.latest_epoch + 1;
+            let latest = st.rt.block_on(inst.storage.get_user_state(&u, ValueStateRetrievalFlag::MaxEpoch)).ok()?;
+            let (els, state): (Vec<AzksElement>, Option<ValueState>) = if op == "o.mal.publish" {
+                let value = AkdValue(parse_hex(toks[2])?);
+                let ver = latest.version + 1;
+                let label = st.rt.block_on(vrf_node_label(&cfg, &u, VersionFreshness::Fresh, ver))?;
+                let raw = st.rt.block_on(HardCodedAkdVRF {}.retrieve()).ok()?;
+                let av = with_cfg!(cfg.as_str(), TC => {
+                    let key = TC::hash(&raw);
+                    TC::compute_fresh_azks_value(&key, &label, ver, &value)
+                });
+                st.unretired.push((u.0.clone(), ver));
+                (vec![AzksElement { label, value: av }], Some(ValueState { value, version: ver, label, epoch: next_epoch, username: u.clone() }))
+            } else {
+                let ver: u64 = toks[2].parse().ok()?;
+                let label = st.rt.block_on(vrf_node_label(&cfg, &u, VersionFreshness::Stale, ver))?;
+                let av = with_cfg!(cfg.as_str(), TC => TC::stale_azks_value());
+                (vec![AzksElement { label, value: av }], None)
+            };
+            let par = st.parallelism;
+            let r = with_cfg!(cfg.as_str(), TC => st.rt.block_on(azks.batch_insert_nodes::<TC, _>(&inst.storage, els, InsertMode::Directory, par)));
+            if r.is_err() {
+                return Some("err".into());
+            }
+            let mut recs = vec![DbRecord::Azks(azks.clone())];
+            if let Some(s) = state {
+                recs.push(DbRecord::ValueState(s));
+            }
+            st.rt.block_on(inst.storage.batch_set(recs)).ok()?;
+            let (e, h) = st.rt.block_on(inst.epoch_hash())?;
+            inst.roots.insert(e, h);
+            Some(format!("ok {e}"))
+        }
+        // an HONEST publish on top of the dishonest tree (through the real Directory; not compared with the model, whose state
+        // does not contain the dishonest steps)
+        "o.hon.publish" if toks.len() == 3 => {
+            let inst = st.inst.as_mut()?;
+            let batch = vec![(AkdLabel(parse_hex(toks[1])?), AkdValue(parse_hex(toks[2])?))];
+            let r = match &inst.dir {
+                AnyDir::W(d) => st.rt.block_on(d.publish(batch)),
+                AnyDir::E(d) => st.rt.block_on(d.publish(batch)),
+            };
+            match r {
+                Ok(eh) => {
+                    inst.roots.insert(eh.0, eh.1);
+                    Some(format!("ok {}", eh.0))
+                }
+                Err(_) => Some("err".into()),
+            }
+        }
+        // the honest history request on the dishonest tree: whatever window contains a version whose predecessor was not retired
+        // in time must be REJECTED by both verifiers
+        "o.mal.history" if toks.len() == 3 => {
+            let inst = st.inst.as_ref()?;
+            let u = AkdLabel(parse_hex(toks[1])?);
+            let hp = parse_params(toks[2])?;
+            let Some((p, e, h)) = st.rt.block_on(inst.history(&u, hp)) else { return Some("err".into()) };
+            let versions: Vec<u64> = p.update_proofs.iter().map(|x| x.version).collect();
+            let touches = st.unretired.iter().any(|(l, r)| *l == u.0 && versions.contains(r));
+            let mut out = vec![];
+            for (name, params) in [("default", HistoryVerificationParams::Default { history_params: hp }), ("allow", HistoryVerificationParams::AllowMissingValues { history_params: hp })] {
+                let acc = inst.verify_history(h, e, &u, p.clone(), params).is_ok();
+                out.push(format!("{name}:{}", if acc { "acc" } else { "rej" }));
+                if acc && touches {
+                    ex.fail_tag("C07", "unretired-version-accepted", format!("{:?} ({name}): the history {:?} was accepted although the tree did not retire the predecessor of a version in it in the epoch of its replacement (unretired: {:?})", toks, versions, st.unretired.iter().filter(|(l, _)| *l == u.0).map(|x| x.1).collect::<Vec<_>>()));
+                }
+                if !acc && !touches {
+                    ex.fail_tag("C03", "honest-window-rejected", format!("{:?} ({name}): the history {:?} touches no late-retired version and was rejected", toks, versions));
+                }
+            }
+            ex.stats.bump(op, if touches { "touches" } else { "clean" });
+            Some(out.join(" "))
         }
         // oracle-only (C14): `o.par.sweep <cfg> <cases> <seed>` — structured random (existing tree, batch of the next epoch) pairs
         // inserted sequentially and with insertion parallelism Static(2|4|16|64): root hash and node count must be identical.
@@ -1898,6 +1984,67 @@ fn step_inner(ex: &mut Exec, st: &mut L1State, op: &str, toks: &[&str]) -> Optio
                     format!("ok {}", rs.iter().map(show_result).collect::<Vec<_>>().join(" "))
                 }
             })
+        }
+        // a MULTI-step audit (s0 .. s0+k) whose step `i` is edited (mirror of the driver's `adv.auditn`), through the real audit_verify
+        "adv.auditn" if toks.len() >= 4 => {
+            let inst = st.inst.as_ref()?;
+            let s0: u64 = toks[1].parse().ok()?;
+            let k: u64 = toks[2].parse().ok()?;
+            let i: usize = toks[3].parse().ok()?;
+            let Some(mut ap) = st.rt.block_on(inst.audit(s0, s0 + k)) else { return Some("err".into()) };
+            if i >= ap.proofs.len() {
+                return Some("err".into());
+            }
+            let mut proof = ap.proofs[i].clone();
+            proof.inserted.sort_by_key(|e| show_label(&e.label));
+            proof.unchanged_nodes.sort_by_key(|e| show_label(&e.label));
+            let mut end_rebuilt = false;
+            let mut plus = 0u64;
+            for e in &toks[4..] {
+                apply_audit_edit(&mut proof, &mut end_rebuilt, &mut plus, e)?;
+            }
+            let end_epoch = s0 + i as u64 + 1;
+            let cfg = inst.cfg.clone();
+            let mut hashes: Vec<[u8; 32]> = vec![];
+            for j in 0..=k {
+                hashes.push(*inst.roots.get(&(s0 + j))?);
+            }
+            let rebuilt_nodes = |proof: &SingleAppendOnlyProof| -> Vec<AzksElement> {
+                let mut nodes = proof.unchanged_nodes.clone();
+                nodes.extend(proof.inserted.iter().map(|x| AzksElement {
+                    label: x.label,
+                    value: with_cfg!(cfg.as_str(), TC => AzksValue(TC::hash_leaf_with_commitment(x.value, end_epoch).0)),
+                }));
+                nodes
+            };
+            if end_rebuilt {
+                match st.rt.block_on(rebuild(&cfg, rebuilt_nodes(&proof), Some(end_epoch - 1))) {
+                    Some((h, _)) => hashes[i + 1] = h,
+                    None => return Some("err".into()),
+                }
+            }
+            ap.proofs[i] = proof.clone();
+            let acc = st.rt.block_on(inst.verify_audit(hashes, ap)).is_ok();
+            if acc && end_rebuilt {
+                // oracle (C09): every leaf committed by the hash BEFORE the edited step must still be committed after it
+                let survivors = st.rt.block_on(rebuild(&cfg, rebuilt_nodes(&proof), Some(end_epoch - 1))).map(|x| x.1).unwrap_or_default();
+                let real = st.rt.block_on(real_nodes(inst, s0 + i as u64));
+                let mut lost = vec![];
+                for (l, (_, is_leaf)) in real.iter() {
+                    if !*is_leaf {
+                        continue;
+                    }
+                    let covered = survivors.iter().any(|s| s.label.is_prefix_of(l) && s.label.label_len <= l.label_len && real.get(&s.label).map(|r| r.0 == s.value.0).unwrap_or(false));
+                    if !covered {
+                        lost.push(show_label(l));
+                    }
+                }
+                if !lost.is_empty() {
+                    ex.fail_tag("C09", "audit-accepts-removal", format!("audit of the epochs {s0}..{} accepted although in step {} -> {} {} leaf/leaves committed by the earlier hash are no longer committed by the later one (e.g. {}); edits {:?}", s0 + k, s0 + i as u64, end_epoch, lost.len(), lost[0], &toks[4..]));
+                }
+            }
+            ex.stats.bump(op, if acc { "acc" } else { "rej" });
+            Some(if acc { "acc".into() } else { "rej".into() })
         }
         "adv.audit" if toks.len() >= 2 => {
             let inst = st.inst.as_ref()?;
